@@ -1246,7 +1246,8 @@ fn run_case(ctx: &Ctx, case: &C02Case) -> CaseResult {
     let RefInfo { d0, dr, ref_res, s, changed, crash_checked, veto_checked, .. } = info;
     let PosStats { injected, errs, swallowed, mid_write, snapshots, snapshots_after_commit, snapshot_busy, denied, denied_mid_write, denied_failed } = st;
 
-    let nontrivial = changed >= 2 && mid_write > 0;
+    // (a batch lock aimed at a conflict is non-trivial when the reference run fails after locking its first outputs)
+    let nontrivial = (changed >= 2 && mid_write > 0) || (case.pre_lock_aimed && ref_res.is_err() && s > 0);
     // generator health of the pool-migration part
     let is_mig_table = |t: &str| migration::MIGRATION_TABLES.contains(&t);
     let differs = |t: &String| d0.get(t) != dr.get(t);
@@ -1725,7 +1726,7 @@ fn main() {
          clear_locked_outputs, queue_rescans, set_transaction_status, prune_scan_queue_below. Per pair: reference run (VM steps S, commits C), enumerated interrupt positions \
          (all if S <= 48, else first/last 6 + 26 evenly spaced + 12 generated; thorough: 400 / 300), vetoed commit, crash copy at the commit hook, second-connection snapshot \
          before every 4th position, retry after every failure. reader-snapshot: get_wallet_summary on one WAL connection while the write commits on another at sampled reader \
-         steps. Non-trivial = reference changes >= 2 rows and at least one fault landed after the operation's first row change; distinct = hash of the case. \
+         steps. Non-trivial = reference changes >= 2 rows and at least one fault landed after the operation's first row change, or (lock-batch-conflict) the reference run of the aimed batch fails; distinct = hash of the case. \
          migration-fault-enumeration: the same per-pair procedure; state = such a wallet (three times out of four with 1-3 blocks of Orchard receipts in front of the history, \
          three times out of four fully scanned below the unscanned blocks) holding 0-2 persisted pool migrations (generated MigrationState values: 0-2 preparation layers, 1-4 \
          transfers, stages planned / partly broadcast / partly mined / complete / failed / superseded / cancelled, heights relative to the wallet's tip and fully-scanned height, \
